@@ -201,7 +201,7 @@ func c07r2r3(c *core.Ctx) {
 				if k == core.CallDynamic && dynamicCallee(m, call) != nil {
 					hasInterest = true
 				}
-				if fc := a.FireCallOf(f, call); fc != nil && fc.Pre() {
+				if fc := a.FireCallOf(f, call); fc != nil && (fc.Pre() || inLoop(f, call)) {
 					hasInterest = true
 				}
 			}
@@ -270,14 +270,18 @@ func c07r2r3(c *core.Ctx) {
 			if !ok {
 				return
 			}
-			if fc := a.FireCallOf(f, call); fc != nil && fc.Pre() {
+			if fc := a.FireCallOf(f, call); fc != nil && (fc.Pre() || inLoop(f, call)) {
 				key := fmt.Sprintf("%s fires %s", f.Name, fc.Event)
+				what := "removal event"
+				if !fc.Pre() {
+					what = "batch event (dispatched row by row in a loop)"
+				}
 				if s.held == "" && heldByAllCallers(c, a, f, 0) {
-					c.OK("C07/R2", key, c.At(call.Pos()), "removal event dispatched in a helper whose every call site lies between acquire and release")
+					c.OK("C07/R2", key, c.At(call.Pos()), what+" dispatched in a helper whose every call site lies between acquire and release")
 				} else if s.held == "" {
-					c.Violation("C07/R2", key, c.At(call.Pos()), fmt.Sprintf("%s dispatches removal event %s while the world is not locked by this operation", f.Name, fc.Event))
+					c.Violation("C07/R2", key, c.At(call.Pos()), fmt.Sprintf("%s dispatches %s %s while the world is not locked by this operation", f.Name, what, fc.Event))
 				} else {
-					c.OK("C07/R2", key, c.At(call.Pos()), "removal event dispatched between acquire and release of "+s.held)
+					c.OK("C07/R2", key, c.At(call.Pos()), what+" dispatched between acquire and release of "+s.held)
 				}
 				return
 			}
